@@ -42,7 +42,7 @@ def match_known(known, prop, fail):
 def units_for(prop, tier):
     us = []
     for u in R.load_units().values():
-        if prop in u.get("property", []):
+        if prop in u.get("property", []) and u.get("enabled", True):
             if u.get("tier", "quick") == "thorough" and tier != "thorough":
                 continue
             us.append(u)
